@@ -402,8 +402,25 @@ CaseDS(cs, ts, e) ==
 -----------------------------------------------------------------------------
 (* The evaluator *)
 RECURSIVE EvalD(_, _)
+\* apply l op r in the body of a join (l, r: aliases): for every measure name m that both aliased operands have
+\* (virtual components l#m and r#m) the result measure m is l#m op r#m; the identifiers stay, every other
+\* component of the virtual dataset (non-homonymous measures, attributes) is left out
+JoinApply(ds, l, r, bop, env) ==
+    LET isM(n) == \E c \in ds.comps : c.n = n /\ c.r = "M"
+        common == { AfterHash(n) : n \in { x \in AllNames(ds) : isM(x) /\ \E m \in { AfterHash(y) : y \in AllNames(ds) } :
+                                                       x = l \o "#" \o m /\ isM(r \o "#" \o m) } }
+        sq == CHOOSE f \in [1..Cardinality(common) -> common] : \A i, j \in 1..Cardinality(common) : i # j => f[i] # f[j]
+        items == [i \in DOMAIN sq |-> [name |-> sq[i], role |-> "M",
+                                      expr |-> [k |-> "bin", op |-> bop, l |-> [k |-> "var", name |-> l \o "#" \o sq[i]],
+                                                                        r |-> [k |-> "var", name |-> r \o "#" \o sq[i]]]]]
+        res == Calc(ds, items, env)
+    IN  IF IsE(res) THEN res
+        ELSE [comps |-> { c \in res.comps : c.r = "I" \/ c.n \in common },
+              rows |-> { Rst(q, IdsOf(res) \cup common) : q \in res.rows }]
+
 ApplyClause(t, ds, env) ==
     CASE t.op = "filter" -> Filter(ds, t.items[1], env)
+      [] t.op = "apply" -> JoinApply(ds, t.items[1], t.items[2], t.items[3], env)
       [] t.op = "calc" -> Calc(ds, t.items, env)
       [] t.op = "keep" -> Keep(ds, Rng(t.items))
       [] t.op = "drop" -> Drop(ds, Rng(t.items))
